@@ -40,8 +40,8 @@ func init() {
 			pc.Unknowns = []int{(idx / 3) % 3}
 			pc.ReqOrder = (idx/9)%3 == 0
 			p := GenProg(r, pc)
-			if pc.ReqOrder {
-				p.ReqOrder = true
+			if pc.ReqOrder && idx%2 == 0 {
+				p.ReqOrder = true // otherwise: the generator's choice (root and/or single commands)
 			}
 			s := GenScenario(r, p, sc)
 			t := Resolve(p)
